@@ -116,13 +116,18 @@ def jobs(prop, tier):
         return [SM("sync_faults"), SM("sync_faults_sc"), SM("sync_faults_late"), SE("sync_faults_edge", 2, rate=0.05),
                 SE("sync_faults_sc_edge", 2, rate=0.05), SE("sync_faults_late_edge", 2, rate=0.05), SS("sync_faults_sim", 3, 800, 80)]
     if prop == "C13":
+        # I->S: racing SubscribeOrCreate entries on a new key (real goroutines), validated against OrdaSyncTrace
+        race = dict(mode="trace", cfg="sync_trace_soc", module="OrdaSyncTrace.tla", tool="concdriver", kind="counter",
+                    why="racing SubscribeOrCreate entries are not explained by any one-at-a-time order of the requests")
         ent = ["sync_entry_t1", "sync_entry_t2", "sync_entry_t3", "sync_entry_cc", "sync_entry_ss", "sync_entry_pre"]
         if q:
             return [SE(c + "_edge", 2, rate=(0.1 if c == "sync_entry_pre" else 1.0)) for c in ent] + [SE("sync_sc_edge", 2, rate=0.05), SE("sync_3_edge", 3, rate=0.002),
                                                                                                         # entries whose requests or answers are repeated, lost or late
-                                                                                                        SE("sync_faults_sc_edge", 2, rate=0.004)]
+                                                                                                        SE("sync_faults_sc_edge", 2, rate=0.004),
+                                                                                                        dict(race, args=["-entry", "60", "-seed", "{seed}"])]
         return [SM(c) for c in ent] + [SE(c + "_edge", 2) for c in ent] + [SE("sync_sc_edge", 2, rate=0.5), SE("sync_3_edge", 3, rate=0.03),
-                                                                         SE("sync_basic_edge", 2, rate=0.3), SE("sync_faults_sc_edge", 2, rate=0.05)]
+                                                                         SE("sync_basic_edge", 2, rate=0.3), SE("sync_faults_sc_edge", 2, rate=0.05),
+                                                                         dict(race, args=["-entry", "1500", "-seed", "{seed}"])]
     if prop == "C14":
         return [dict(mode="edge", cfg="codec", kind="codec", n=0, rate=1.0, tool="codeccheck", dump_module="OrdaCodec.tla", prefix="CODEC")]
     if prop == "C12":
